@@ -135,8 +135,15 @@ def one(ctx, i):
     pg = C.import_phasegen()
     rng = random.Random(f'{ctx.seed}-c02-{i}')
     quick = ctx.quick
+    if isinstance(i, str) and i.startswith('mm'):
+        # multiple-merger models with enough lineages for two or more bystanders next to a merger (n >= 6), one deme
+        cfg = gen.rand_cfg(rng, n_max=4, demes_max=1, epochs_max=2)
+        cfg['n'][list(cfg['n'])[0]] = rng.choice([6, 6, 7])
+        cfg['model'] = rng.choice([('dirac', rng.choice([0.25, 0.3, 0.75]), rng.choice([0.5, 2.0, 4.0]), rng.random() < 0.5),
+                                   ('beta', rng.choice([1.25, 1.5, 1.75]), rng.random() < 0.5)])
+        return compare(ctx, cfg, pg, 48 if quick else 110)
     D = rng.choice([1, 1, 2]) if quick else rng.choice([1, 1, 2, 2, 3])
-    nmax = {1: 5 if quick else 7, 2: 4 if quick else 5, 3: 3 if not quick else 3}[D]
+    nmax = {1: 6 if quick else 7, 2: 4 if quick else 5, 3: 3 if not quick else 3}[D]     # n = 6: first size with two bystander lineages next to a merger (Dirac)
     cfg = None
     for _ in range(30):
         c = gen.rand_cfg(rng, n_max=nmax, demes_max=D, epochs_max=2 if quick else 3)
@@ -151,7 +158,7 @@ def one(ctx, i):
 
 def run(ctx):
     import check
-    check.pmap(ctx, 'props.c02', 'one', list(range(48 if ctx.quick else 160)), case_timeout=200 if ctx.quick else 1500)
+    check.pmap(ctx, 'props.c02', 'one', list(range(48 if ctx.quick else 160)) + [f'mm-{j}' for j in range(8 if ctx.quick else 40)], case_timeout=200 if ctx.quick else 1500)
 
 
 def replay(ctx, payload):
